@@ -365,11 +365,18 @@ fn check_fix(cx: &mut Ctx<'_>, route: &str, f: &Fix, t: &mut Tally) {
     }
     // every modelled leaf of the input keeps its value
     let mut lost: Vec<String> = vec![];
+    // value-variant cases put numbers / booleans at values that may be the field's default; ruma omits
+    // such a key from the text. That is not a changed value if the typed value read back is the same.
+    let default_may_be_omitted = cx.c.form.contains('#') && f.typed_unchanged == Some(true);
     for (path, leaf) in json::leaves(&content) {
         if path.is_empty() {
             continue; // content `{}` itself
         }
         let same = parsed.value.at(&path).map(|j| j.same_leaf(&leaf)).unwrap_or(false);
+        if !same && default_may_be_omitted && parsed.value.at(&path).is_none() {
+            t.outcome("content-leaf-default-omitted", "omitted, typed value unchanged");
+            continue;
+        }
         if !same {
             let key = path[0].clone();
             if !lost.contains(&key) {
@@ -873,6 +880,28 @@ fn explore_schema(s: &Schema, report: &Report, t: &mut Tally, thorough: bool) {
                         plain = Some(r);
                     }
                 }
+                // value variants: with every optional group present, each number / boolean leaf of the
+                // content at 0, 1, 50, 100 resp. flipped (one leaf at a time) — defaults and skip
+                // conditions are per-value behaviour that one arbitrary value per field never meets
+                if subset == full_mask && format == formats(s.kind, original, s.state_key.as_deref() == Some(""))[0] {
+                    for (path, alt) in leaf_variants(content) {
+                        // the integer `version` of the VoIP events is an enumeration (0), not a quantity
+                        if s.ty.starts_with("m.call.") && path == ["version"] {
+                            continue;
+                        }
+                        let mut content2 = content.clone();
+                        set_leaf(&mut content2, &path, alt.clone());
+                        let event = build_event(s, &content2, extras, format, if matches!(format, Format::Full | Format::Sync) { *red_v } else { None });
+                        let mut c = base.clone();
+                        c.event = event;
+                        c.form = format!("{form}#{}={alt}", path.join("."));
+                        if !seen.insert((format, text_of(&c))) {
+                            continue;
+                        }
+                        t.outcome("value-variant", if alt.is_boolean() { "bool" } else { "number" });
+                        let _ = run(&c, None, t);
+                    }
+                }
                 if thorough || subset == 0 || subset == full_mask {
                     for (sig, detail) in eval_raw_duplicates(&base, t) {
                         report.violation(&sig, || detail, || json!({"raw_duplicates": true, "case": case_json(&base)}));
@@ -881,6 +910,52 @@ fn explore_schema(s: &Schema, report: &Report, t: &mut Tally, thorough: bool) {
             }
         }
     }
+}
+
+/// (path, alternative value) for every number / boolean leaf below `v` (array indices as decimal segments)
+fn leaf_variants(v: &Value) -> Vec<(Vec<String>, Value)> {
+    fn walk(v: &Value, path: &mut Vec<String>, out: &mut Vec<(Vec<String>, Value)>) {
+        match v {
+            Value::Object(m) => {
+                for (k, x) in m {
+                    path.push(k.clone());
+                    walk(x, path, out);
+                    path.pop();
+                }
+            }
+            Value::Array(a) => {
+                for (i, x) in a.iter().enumerate() {
+                    path.push(i.to_string());
+                    walk(x, path, out);
+                    path.pop();
+                }
+            }
+            Value::Bool(b) => out.push((path.clone(), json!(!b))),
+            Value::Number(n) if n.is_u64() => {
+                for alt in [0u64, 1, 50, 100] {
+                    if n.as_u64() != Some(alt) {
+                        out.push((path.clone(), json!(alt)));
+                    }
+                }
+            }
+            _ => {}
+        }
+    }
+    let mut out = vec![];
+    walk(v, &mut vec![], &mut out);
+    out
+}
+
+fn set_leaf(v: &mut Value, path: &[String], new: Value) {
+    let mut cur = v;
+    for seg in path {
+        cur = match cur {
+            Value::Object(m) => m.get_mut(seg).expect("path"),
+            Value::Array(a) => a.get_mut(seg.parse::<usize>().expect("index")).expect("path"),
+            _ => unreachable!(),
+        };
+    }
+    *cur = new;
 }
 
 fn replay(v: &Value) -> Viol {
@@ -939,7 +1014,9 @@ fn main() {
          {compact, blanks around every token, last character of every string (keys, `type`, values) as a \\u escape} \
          (quick: orders and spellings as a star around the sorted compact text; thorough: full product, plus ALL \
          permutations of the <= 7 top-level keys for the smallest and the largest event of each schema and form) \
-         + every top-level key duplicated first/last/both for Raw (quick: smallest and largest event). \
+         + every top-level key duplicated first/last/both for Raw (quick: smallest and largest event) \
+         + value variants: with all optional groups present, every number leaf of the content at 0, 1, 50, 100 and every boolean \
+         flipped, one leaf at a time (a key omitted from the output is accepted there only if the typed value read back is unchanged). \
          state = one distinct event text; transition = one call of ruma (deserialize, accessor batch, serialize, \
          from_parts, deserialize_with_type, Raw::get_field); non-trivial = every state (an event equal to one of an \
          earlier (subset, form) is skipped, not counted)",
